@@ -306,7 +306,15 @@ pub fn run_check<E: Engine>(prop: &str, tier: &str, level: &str, extra: serde_js
         scenario_runs += 1;
         let is_known = known.iter().any(|k| k.id == sc.id && k.status == "known");
         let entry = known.iter().find(|k| k.id == sc.id && k.property == prop && k.status == "known");
-        let sim = E::run(&sc.trace, false, is_known);
+        // In a process of its own: memory corruption in the code under test must not take the driver down.
+        let sim = match run_isolated::<E>(&sc.trace, is_known) {
+            Ok(o) => o,
+            Err(why) => {
+                let v = Violation { prop: prop.to_string(), oracle: "process_abort".into(), detail: format!("the process running directed history {} died ({why})", sc.id), step: 0 };
+                violations.push((format!("scenario:{}", sc.id), v, sc.trace.clone(), 0));
+                continue;
+            }
+        };
         if let Some(e) = &sim.harness_error {
             eprintln!("harness error in scenario {}: {e}", sc.id);
             return (2, None);
@@ -351,8 +359,12 @@ pub fn run_check<E: Engine>(prop: &str, tier: &str, level: &str, extra: serde_js
     let mut exit = 0;
     let mut reported = vec![];
     if let Some((origin, v, trace, index)) = violations.first() {
-        let (min, runs) = if v.oracle == "process_abort" { (trace.clone(), 0) } else { shrink::shrink::<E>(trace, &v.prop, &v.oracle, 3000) };
-        let final_v = shrink::fails::<E>(&min, &v.prop, &v.oracle).unwrap_or(v.clone());
+        // Minimisation also runs in a child process; if that dies the unshrunk trace is reported.
+        let (min, runs) = if v.oracle == "process_abort" { (trace.clone(), 0) } else { shrink_isolated::<E>(trace, &v.prop, &v.oracle).unwrap_or((trace.clone(), 0)) };
+        let final_v = match run_isolated::<E>(&min, false) {
+            Ok(o) => o.violations.into_iter().find(|x| x.prop == v.prop && x.oracle == v.oracle).unwrap_or(v.clone()),
+            Err(_) => v.clone(),
+        };
         let r = Replay {
             property: prop.to_string(),
             oracle: v.oracle.clone(),
@@ -453,4 +465,57 @@ pub fn determinism<E: Engine>(prop: &str, total: u64) -> bool {
     let ok = digests.iter().all(|d| d.1 == digests[0].1 && d.2 == digests[0].2);
     println!("{prop} [{}] {total} runs: {} {:?}", E::FAMILY, if ok { "deterministic" } else { "DIVERGED" }, digests);
     ok
+}
+
+#[derive(Serialize, Deserialize)]
+pub struct IsoOut {
+    pub violations: Vec<Violation>,
+    pub harness_error: Option<String>,
+}
+
+fn tmp_path(tag: &str) -> String {
+    let dir = format!("{}/replays/tmp", out_dir());
+    let _ = std::fs::create_dir_all(&dir);
+    format!("{dir}/{tag}-{}.json", std::process::id())
+}
+
+/// Runs one trace in a child process.
+pub fn run_isolated<E: Engine>(trace: &E::T, no_taint: bool) -> Result<IsoOut, String> {
+    let path = tmp_path("iso");
+    std::fs::write(&path, serde_json::to_string(trace).unwrap()).map_err(|e| e.to_string())?;
+    let exe = std::env::current_exe().map_err(|e| e.to_string())?;
+    let out = Command::new(exe).args(["run-trace", E::FAMILY, &path, if no_taint { "1" } else { "0" }]).stderr(Stdio::null()).output().map_err(|e| e.to_string())?;
+    let _ = std::fs::remove_file(&path);
+    let text = String::from_utf8_lossy(&out.stdout);
+    match text.lines().find_map(|l| l.strip_prefix("OUT ")) {
+        Some(j) => serde_json::from_str(j).map_err(|e| e.to_string()),
+        None => Err(format!("exit status {:?}", out.status)),
+    }
+}
+
+pub fn run_trace_child<E: Engine>(path: &str, no_taint: bool) {
+    let t: E::T = serde_json::from_str(&std::fs::read_to_string(path).expect("trace file")).expect("trace");
+    let o = E::run(&t, false, no_taint);
+    println!("OUT {}", serde_json::to_string(&IsoOut { violations: o.violations, harness_error: o.harness_error }).unwrap());
+}
+
+pub fn shrink_isolated<E: Engine>(trace: &E::T, prop: &str, oracle: &str) -> Option<(E::T, usize)> {
+    let (pin, pout) = (tmp_path("shrink-in"), tmp_path("shrink-out"));
+    std::fs::write(&pin, serde_json::to_string(trace).unwrap()).ok()?;
+    let exe = std::env::current_exe().ok()?;
+    let st = Command::new(exe).args(["shrink-trace", E::FAMILY, &pin, &pout, prop, oracle]).stderr(Stdio::null()).stdout(Stdio::null()).status().ok()?;
+    let _ = std::fs::remove_file(&pin);
+    if !st.success() {
+        return None;
+    }
+    let text = std::fs::read_to_string(&pout).ok()?;
+    let _ = std::fs::remove_file(&pout);
+    let (t, runs): (E::T, usize) = serde_json::from_str(&text).ok()?;
+    Some((t, runs))
+}
+
+pub fn shrink_trace_child<E: Engine>(pin: &str, pout: &str, prop: &str, oracle: &str) {
+    let t: E::T = serde_json::from_str(&std::fs::read_to_string(pin).expect("trace file")).expect("trace");
+    let (min, runs) = shrink::shrink::<E>(&t, prop, oracle, 3000);
+    std::fs::write(pout, serde_json::to_string(&(min, runs)).unwrap()).expect("write");
 }
